@@ -394,6 +394,15 @@ void h_print_archive(void)
 	__CPROVER_assert(vg_verdicts == 0 && !vg_fail_seen, "print_archive asks the library for no verdict");
 	VG_CANARY("print_archive");
 }
+/* prompt_user's contract (replaced at its call in maincli.extract_archive) is enforced here on the dfcc route,
+   with the print unit's clauses on its do-while loop in force (-DVG_MC_PU): it writes nothing the caller sees */
+void h_prompt_user(void)
+{
+	char vg_msg[2] = "?";
+	vg_quiet = 0; vg_raw_sunk = 0;
+	(void) prompt_user(vg_msg);
+	VG_CANARY("prompt_user");
+}
 #endif /* VG_MC_L */
 
 #if defined(VG_MC_FULL) || defined(VG_MC_MAIN)
